@@ -54,6 +54,7 @@ type c19 struct {
 	bigSet            bool
 	offerBuf          []coinset.Coin
 	hugeSet           bool
+	churn             bool
 	mutated, selected bool
 }
 
@@ -72,6 +73,14 @@ func (s *c19) Start(r *kit.Rng, cfg map[string]int64) {
 			s.hugeSet = true // beyond 32 coins
 			s.maxSteps = r.Range(90, 130)
 		}
+	}
+	if !s.bigSet && r.Chance(1, 120) {
+		// queue churn: hundreds of pushes and shifts on a set that never
+		// empties (ring buffers, head indices, compaction thresholds)
+		s.churn = true
+		s.bigSet = true
+		s.hugeSet = true
+		s.maxSteps = r.Range(500, 1000)
 	}
 	cfg["max_steps"] = int64(s.maxSteps)
 }
@@ -161,10 +170,24 @@ func (s *c19) genNewSet(r *kit.Rng, which int) kit.Op {
 
 func (s *c19) genSetOp(r *kit.Rng) (kit.Op, bool) {
 	k := r.Intn(16)
+	if s.churn {
+		// push while below ~40 coins, else shift; selections are rare
+		switch {
+		case r.Chance(1, 25):
+			k = 12
+		case len(s.deque) < 70 || (len(s.deque) < 110 && r.Chance(3, 5)):
+			k = r.Intn(5)
+		default:
+			k = 7
+			s.st.Probe("churn-shift")
+		}
+	}
 	limit := 16
 	if s.bigSet {
 		limit = 24
-		if s.hugeSet {
+		if s.churn {
+			limit = 200
+		} else if s.hugeSet {
 			limit = 48
 			if len(s.deque) > 32 {
 				s.st.Probe("set-with-more-than-32-coins")
@@ -289,7 +312,7 @@ func (s *c19) genSelect(r *kit.Rng) kit.Op {
 func (s *c19) Apply(o kit.Op) *kit.Violation {
 	switch o.K {
 	case "coin":
-		if len(s.pool) >= 48 || o.Arg(0) < 0 || o.Arg(1) < 0 {
+		if len(s.pool) >= 200 || o.Arg(0) < 0 || o.Arg(1) < 0 {
 			return nil
 		}
 		id := len(s.pool)
@@ -462,12 +485,17 @@ func (s *c19) checkSelect(which int, target int64, maxIn int, minChange, minVA i
 	if which < 0 || which > 3 || target < 1 || minChange < 0 || minVA < 0 {
 		return nil
 	}
+	if which == 3 && s.set.Num() > 48 {
+		// the min-priority selector's nested search grows too fast for the
+		// very large sets of the churn profile; the sort-based ones are used there
+		which = 1 + s.set.Num()%2
+	}
 	// the offered list lives in ONE caller-owned buffer that is overwritten in
 	// place from call to call (what a wallet does with its candidate list):
 	// a selector that remembers a list by its address must not be fooled
 	cur := s.set.Coins()
-	if cap(s.offerBuf) < 64 {
-		s.offerBuf = make([]coinset.Coin, 0, 64)
+	if cap(s.offerBuf) < 256 {
+		s.offerBuf = make([]coinset.Coin, 0, 256)
 	}
 	offered := append(s.offerBuf[:0], cur...)
 	before := append([]coinset.Coin(nil), offered...)
